@@ -33,6 +33,7 @@ def handle (line : String) : String :=
     | some src => obsParse src
     | none => "BADLINE"
   | ["render", env, src, feeder] => obsRender env src feeder
+  | ["ctx", ops] => obsCtx ops
   | _ => "BADLINE"
 
 partial def loop (hin hout : IO.FS.Stream) : IO Unit := do
